@@ -101,7 +101,23 @@ Bools(C) == {PAnd(s, "ctor", FALSE, VNone) : s \in [1..2 -> C]} \cup {POr(s, "ct
 Seqs(C) == {PList(s) : s \in SeqsUpTo(C, 2)} \cup {PTuple(s) : s \in SeqsUpTo(C, 2)}
 Sets1 == {PSet(s) : s \in SmallSetsP(HashLsSeq)} \cup {PFrozenset(s) : s \in {<<>>, <<PType("int")>>, <<PLit(VStr("a"))>>}}
 
-P1 == Bools(Ls) \cup {PNot(c, "ctor") : c \in Leaves} \cup Seqs(Ls) \cup Sets1 \cup
+\* And / Or whose first child is a dict pattern that fills in an Optional default and whose other
+\* child tells the target from the default-augmented dict: every child of And is checked
+\* against the *target* (not against an earlier child's result) and And yields the last result
+OptA == POptional(VStr("a"), TRUE, VInt(5))
+Filling == {PDict(<< <<OptA, PType("int")>> >>),
+            PDict(<< <<OptA, PType("int")>>, <<PType("str"), PType("object")>> >>),
+            PDict(<< <<POptional(VStr("b"), TRUE, VNone), PType("object")>>, <<PLit(VStr("a")), PType("int")>> >>)}
+Telling == {PM("==", VC("dict", <<>>)), PM("!=", VC("dict", << Entry(VStr("a"), VInt(5)) >>)), PPred("falsy", 0),
+            PNot(PPred("truthy", 0), "ctor"), PDict(<<>>), PDict(<< <<PType("str"), PType("str")>> >>),
+            PDict(<< <<PLit(VStr("a")), PType("int")>> >>), PType("dict"), PMTruthy}
+AndDefaults ==
+  {PAnd(<<f, g>>, "ctor", FALSE, VNone) : f \in Filling, g \in Telling} \cup
+  {PAnd(<<g, f>>, "ctor", FALSE, VNone) : f \in Filling, g \in Telling} \cup
+  {PAnd(<<f, g, f>>, "ctor", FALSE, VNone) : f \in Filling, g \in Telling} \cup
+  {POr(<<PAnd(<<f, PLit(VInt(1))>>, "ctor", FALSE, VNone), g>>, "ctor", FALSE, VNone) : f \in Filling, g \in Telling}
+
+P1 == Bools(Ls) \cup AndDefaults \cup {PNot(c, "ctor") : c \in Leaves} \cup Seqs(Ls) \cup Sets1 \cup
       {p \in DictPats(KeysP, Ls, KeysPP, ValsP) : DistinctKeys(p)}
 
 \* a selection of depth-1 patterns used as children at depth 2
@@ -160,6 +176,8 @@ Shallow(p) == p \in Leaves \/ (p.op \in {"and", "or", "not"} /\ \A i \in 1..Len(
 \* the root decides): of those, only the targets of depth <= 1 are enumerated
 TargetsFor(p) ==
   IF Shallow(p) THEN Atoms0 \cup Depth1
+  ELSE IF p \in AndDefaults        \* every child asks for a dict (or is indifferent to what is inside others)
+       THEN Atoms0 \cup Depth1 \cup {t \in Targets : PyIsInstance(t, "dict")}
   ELSE IF p.op \in {"list", "set", "frozenset", "tuple", "dict"}
        THEN Atoms0 \cup Depth1 \cup {t \in Targets : PyIsInstance(t, p.op)}
   ELSE Targets
